@@ -186,7 +186,15 @@ NameFails(t) ==
   \cup (IF t.err # "OK" /\ t.post # t.old THEN {"failed-write-changed-store"} ELSE {})
   \cup (IF t.err = "OK" /\ \E q \in NameLeaves : ~InScope(q, M, W) /\ NameVal(t.post, q) # NameVal(t.old, q) THEN {"frame"} ELSE {})
 
-Fails(t) == IF t.k = "upd" THEN UpdFails(t) ELSE IF t.k = "names" THEN NameFails(t) ELSE ProjFails(t)
+\* reads over the same schema: exactly the leaves covered by the mask (segment-wise) survive
+RNameFails(t) ==
+  LET K == PathSet(NormMask(t.M)) IN
+  (IF t.panic # "" THEN {"panic"} ELSE {})
+  \cup (IF \E q \in NameLeaves : NameVal(t.post, q) # (IF Covered(q, K) THEN NameVal(t.old, q) ELSE 0)
+        THEN {"not-the-projection"} ELSE {})
+
+Fails(t) == IF t.k = "upd" THEN UpdFails(t) ELSE IF t.k = "names" THEN NameFails(t)
+            ELSE IF t.k = "rnames" THEN RNameFails(t) ELSE ProjFails(t)
 BadLines == { k \in 1..Len(Obs) : Fails(Obs[k]) # {} }
 TraceInit == c = 0
 TraceNext == UNCHANGED c
